@@ -1,5 +1,5 @@
 @unit cw3fixed
-@shim core.rs cw_utils.rs cw3deps.rs cw2.rs std_adapters.rs range.rs
+@shim core.rs cw_utils.rs std_more.rs cw3deps.rs cw2.rs std_adapters.rs range.rs
 @properties C03 C05 C06 C20
 
 @include inc/cw3_proposal.vsi
@@ -1072,4 +1072,29 @@ pub proof fn lemma_listed_wf(s: Raw)
     ensures res.addr@ == __p3_0.0@ && res.weight == __p3_0.1
 @prefix
     broadcast use string_conv, ax_bytes_from_string;
+@end
+
+// ===================================================================== the query entry point routes every message to its query function
+@enum contracts/cw3-fixed-multisig/src/msg.rs QueryMsg
+impl JsonT for ThresholdResponse { uninterp spec fn json(self) -> Seq<u8>; uninterp spec fn unjson(b: Seq<u8>) -> Option<Self>; }
+impl JsonT for ProposalResponse<Empty> { uninterp spec fn json(self) -> Seq<u8>; uninterp spec fn unjson(b: Seq<u8>) -> Option<Self>; }
+impl JsonT for VoteResponse { uninterp spec fn json(self) -> Seq<u8>; uninterp spec fn unjson(b: Seq<u8>) -> Option<Self>; }
+impl JsonT for VoterResponse { uninterp spec fn json(self) -> Seq<u8>; uninterp spec fn unjson(b: Seq<u8>) -> Option<Self>; }
+impl JsonT for ProposalListResponse<Empty> { uninterp spec fn json(self) -> Seq<u8>; uninterp spec fn unjson(b: Seq<u8>) -> Option<Self>; }
+impl JsonT for VoteListResponse { uninterp spec fn json(self) -> Seq<u8>; uninterp spec fn unjson(b: Seq<u8>) -> Option<Self>; }
+impl JsonT for VoterListResponse { uninterp spec fn json(self) -> Seq<u8>; uninterp spec fn unjson(b: Seq<u8>) -> Option<Self>; }
+@fn contracts/cw3-fixed-multisig/src/contract.rs query
+@requires
+    inv(deps.storage.view())
+@ensures C03.query_routes C05 C06 C20
+    r is Ok ==> match msg {
+        QueryMsg::Threshold {} => exists|x: ThresholdResponse| r->Ok_0@ == x.json() && call_ensures(query_threshold, (deps,), Ok::<ThresholdResponse, StdError>(x)),
+        QueryMsg::Proposal { proposal_id } => exists|x: ProposalResponse<Empty>| r->Ok_0@ == x.json() && call_ensures(query_proposal, (deps, env, proposal_id), Ok::<ProposalResponse<Empty>, StdError>(x)),
+        QueryMsg::Vote { proposal_id, voter } => exists|x: VoteResponse| r->Ok_0@ == x.json() && call_ensures(query_vote, (deps, proposal_id, voter), Ok::<VoteResponse, StdError>(x)),
+        QueryMsg::ListProposals { start_after, limit } => exists|x: ProposalListResponse<Empty>| r->Ok_0@ == x.json() && call_ensures(list_proposals, (deps, env, start_after, limit), Ok::<ProposalListResponse<Empty>, StdError>(x)),
+        QueryMsg::ReverseProposals { start_before, limit } => exists|x: ProposalListResponse<Empty>| r->Ok_0@ == x.json() && call_ensures(reverse_proposals, (deps, env, start_before, limit), Ok::<ProposalListResponse<Empty>, StdError>(x)),
+        QueryMsg::ListVotes { proposal_id, start_after, limit } => exists|x: VoteListResponse| r->Ok_0@ == x.json() && call_ensures(list_votes, (deps, proposal_id, start_after, limit), Ok::<VoteListResponse, StdError>(x)),
+        QueryMsg::Voter { address } => exists|x: VoterResponse| r->Ok_0@ == x.json() && call_ensures(query_voter, (deps, address), Ok::<VoterResponse, StdError>(x)),
+        QueryMsg::ListVoters { start_after, limit } => exists|x: VoterListResponse| r->Ok_0@ == x.json() && call_ensures(list_voters, (deps, start_after, limit), Ok::<VoterListResponse, StdError>(x)),
+    }
 @end
